@@ -83,10 +83,11 @@ def run(sid, tier="quick", wt=None):
         print(out[-1500:])
 
 
-def confirm(sid, wt="/tmp/wt-coord"):
+def confirm(sid, wt=None):
     """independent confirmation in a scratch worktree at /repo's HEAD: pinned tests pass with the change,
     demo fails with it and passes without it"""
     d = SEED / sid
+    wt = wt or f"/tmp/wt-confirm-{sid}"   # one worktree per change (removed at the end): confirmations may run in parallel
     meta = json.loads((d / "meta.json").read_text())
     head = sh("git -C /repo rev-parse HEAD").stdout.strip()
     if not Path(wt).exists():
@@ -119,6 +120,7 @@ def confirm(sid, wt="/tmp/wt-coord"):
         res["confirmed"] = bool(rc_with not in (0, None) and rc_without == 0 and "[]" in res.get("pinned_tests_with_change", ""))
     meta["coordinator_confirmation"] = res
     (d / "meta.json").write_text(json.dumps(meta, indent=1))
+    sh(f"git -C /repo worktree remove --force {wt}")
     print(sid, res)
 
 
